@@ -48,6 +48,18 @@ CHECKS = {
         "Scores at 1e-4; enumeration bounded by max copy number 6; exome route through the do_copy_number switch only.",
         "DESIGN.md 5/C03",
     ),
+    "C04": (
+        "differential testing of estimate_minor against an exhaustive (minor x kept x added) enumerator with phase term on Hypothesis-generated tables; safety invariants; noise-free sweep over shipped catalogues",
+        "Optimality part: toy gene and tiny generated databases (multi-allelic sites, fusions), major solutions of 1-3 copies, planted + noisy "
+        "tables with extra / dropped sites and optional read-phase records (consistent and chimeric fragments); an independent enumerator "
+        "restates rules 1-6 and the objective (fit error + miss/add/novel penalties + phase disagreement) and evaluates every assignment: "
+        "reported score within [optimum, optimum + tie-breaker]. Safety predicates on every reported allele (minor of the called major, core "
+        "variants kept, additions only with copies and filtered support, support for every carried variant, one variant per position, every "
+        "supported considered variant carried). Noise-free part: pairs of catalogued minor alleles of all shipped genes reproduce the planted "
+        "variant multiset.",
+        "Tie-breaker not modelled (1e-3 allowance); enumeration capped at 4e5 assignments.",
+        "DESIGN.md 5/C04",
+    ),
     "C05": (
         "differential testing: Hypothesis-generated models vs exhaustive enumeration of all binary assignments; exhaustive helper linearisations; cross-solver (SCIP, HiGHS) audit of the models aldy builds",
         "(i) random models of aldy's shape built through aldy.lpinterface and enumerated over all 2^n binary assignments: first solution "
